@@ -2388,7 +2388,12 @@ void CDNS::CdnsBlockRead::read(CdnsDecoder& dec, std::vector<BlockParameters>& b
                 dec.read_array([this](CdnsDecoder& dec){
                     AddressEventCount tmp;
                     tmp.read(dec);
-                    m_address_event_counts[tmp] = tmp.ae_count;
+                    // The count is the value mapped to the key. Inside the key it stays 0 like for events
+                    // counted by add_address_event_count(), otherwise later additions of the same event
+                    // to the read Block wouldn't find it.
+                    uint64_t count = tmp.ae_count;
+                    tmp.ae_count = 0;
+                    m_address_event_counts[tmp] += count;
                 });
                 break;
             case get_map_index(BlockMapIndex::malformed_messages):
